@@ -76,6 +76,14 @@ class Check:
         self.obs.append(ob)
         return ob
 
+    def chain(self, name, hyps, steps, goal, func=None, meta=None, kind="post"):
+        """Lemma chain (DESIGN 4.4): each step is proved from the hypotheses and the earlier steps, then the goal from all."""
+        have = []
+        for label, formula in steps:
+            self.add(f"{name}/have:{label}", list(hyps) + have, formula, kind="lemma", func=func, meta=meta)
+            have.append(formula)
+        return self.add(name, list(hyps) + have, goal, kind=kind, func=func, meta=meta)
+
     def add_from_path(self, prefix, outcome, func=None, meta=None):
         """Adopt the engine-generated obligations (bounds, invariants, callee preconditions) of a path."""
         for ob in outcome.obligations:
